@@ -37,12 +37,15 @@ package plugin
 //@   ensures result == e.name
 
 // Execute: every failure becomes an error response; a decoded response is returned as it is (plus stderr warning).
+// The request handed to the plugin process is compressed exactly when the data trailer that announces the
+// compression has been appended (a plugin that does not read the trailer must get the plain AST).
 //@ func (e *external) Execute(req *Request) (res *Response)
 //@   requires e != nil && req != nil
 //@   propagates
 //@   ensures res != nil
 //@   ensures $failed ==> res.Error != nil
 //@   modifies *
+//@   site call:cmd.Run assert ncalls("compressThriftInclude") == ncalls("appendDataTrailer")
 
 // Include compression (experimental, behind an environment variable): assumed contracts; they only redirect
 // Include.Reference links and fill the map they are given.
